@@ -538,3 +538,20 @@ Proof.
   destruct (record_result_cached _ _ _ _ _ Hok Hs Ht Hu) as (e & He & _).
   destruct (conv_ext _ _ _ _ _ _ _ _ _ H) as (C & _ & _). rewrite (C _ _ He). discriminate.
 Qed.
+
+(* converting a record into a struct-VALUED slot (an embedded struct addressed by its own key, a plain struct field,
+   an element being filled in place) writes only the fields the record names: whatever the slot already holds at the
+   other paths — e.g. values written through promoted field names of the parent record — is still there *)
+Theorem struct_slot_keeps_untouched : forall f te top tname cur id tn fs st d b st' q,
+    cache_find id st = None -> find_reg te tn = Some d ->
+    conv (S f) te top (TStruct tname) cur (SRec id tn fs) st = Ok (b, st') ->
+    (forall p, In p (res_paths (resolve_key f te (s_name d)) fs) -> is_prefix p q = false /\ is_prefix q p = false) ->
+    get_path b q = get_path cur q.
+Proof.
+  intros f te top tname cur id tn fs st d b st' q Hc Hr H Hind.
+  destruct (conv_rec_miss_inv _ _ _ _ _ _ _ _ _ _ _ Hc H) as (d' & bty & base & b0 & st1 & Hr' & Hb & Hfold & Hfin).
+  rewrite Hr in Hr'. inversion Hr'; subst d'. simpl in Hb.
+  destruct (top || str_eqb tname (s_name d)); [|discriminate]. inversion Hb; subst bty base.
+  simpl in Hfin. inversion Hfin; subst b0.
+  eapply fill_preserves; eassumption.
+Qed.
